@@ -33,6 +33,9 @@ func (c *trCtx) freeVars(except []types.Object, nodes ...ast.Node) []types.Objec
 			continue
 		}
 		ast.Inspect(n, func(n ast.Node) bool {
+			for _, o := range c.ambientUsed(n, false) {
+				used[o] = true // color.NoColor, the float formatter (trans_units_tablerender.go)
+			}
 			if id, ok := n.(*ast.Ident); ok {
 				if o := c.info().Defs[id]; o != nil {
 					defined[o] = true
